@@ -122,7 +122,7 @@ class Engine(EngineBase, ExprMixin, StmtMixin, CallMixin, PreludeMixin, FoldMixi
         try:
             for j, text, tags in self.clauses(ensures):
                 v = self.ev1(self.parse_spec(text), st, sf)
-                self.oblige(st, '%s#%s[%d]' % (c.qual, label, j), truthy(v), {'text': text, 'tags': tags})
+                self.oblige(st, '%s#%s[%s]' % (c.qual, label, j), truthy(v), {'text': text, 'tags': tags})
         finally:
             st.env = saved
 
